@@ -161,6 +161,20 @@ static void gen_c03(const std::string& tier, std::vector<Case>& cases) {
             for (auto& d : devs) { Case c; c.fund = S.fund; c.tx = d.second; c.select = -1; c.label = base + " " + d.first; c.klass = "large:" + klass_of(d.first); cases.push_back(c); }
         }
     }
+    // extreme amounts of the spent output: 0, 1 and 21e14 satoshi (BIP143 / BIP341 digests commit to the amount; zero is a legal amount, not
+    // a missing one), every output type
+    for (auto& type : gen::all_types()) for (int64_t amt : {int64_t(0), int64_t(1), int64_t(2100000000000000LL)}) {
+        gen::Shape sh = shape_of(type, gen::is_taproot_type(type) ? 0 : 1, 1); sh.amount = amt;
+        gen::Spend S = gen::make_spend(type, sh, 1, 1, false);
+        Case c; c.fund = S.fund; c.tx = S.tx; c.label = type + " spending an output of " + std::to_string(amt) + " satoshi"; c.klass = "valid-extreme-amount"; cases.push_back(c);
+    }
+    // the EMPTY script as witness script / tapscript leaf (witness <01> <> [control]): a legal script that leaves the item below it as the result
+    for (std::string type : {"p2wsh-checksig", "p2tr-script"}) for (int items = 0; items < 3; items++) {
+        gen::Shape sh = shape_of(type, gen::is_taproot_type(type) ? 0 : 1, 1); sh.leaf_kind = "raw"; sh.raw_script = bytes{};
+        if (items >= 1) sh.raw_items.push_back(bytes{1}); if (items == 2) sh.raw_items.insert(sh.raw_items.begin(), bytes{});
+        gen::Spend S = gen::make_spend(type, sh, 1, type == "p2tr-script" ? items % 2 : 1, false);
+        Case c; c.fund = S.fund; c.tx = S.tx; c.label = type + " empty script over " + std::to_string(items) + " witness item(s)"; c.klass = "empty-witness-script"; cases.push_back(c);
+    }
     // multi-signature spends whose signatures use different hash types (every ordered pair), one-input and three-input transactions: each
     // check derives its own digest; the spend is valid
     for (std::string type : {"p2wsh", "p2sh-multisig", "p2sh-p2wsh"}) for (int h1 : {1, 2, 3, 0x81, 0x82, 0x83}) for (int h2 : {1, 2, 3, 0x81, 0x82, 0x83}) for (int nin : {1, 3}) {
@@ -294,6 +308,11 @@ static void gen_c03_extended(std::vector<Case>& cases) {
     // SIGPUSHONLY (not a standard flag): a scriptSig that is not push-only fails the spend whatever the output type
     { gen::Spend S = gen::make_spend("p2pk", sh);
       for (uint32_t fl : {F_STANDARD | F_SIGPUSHONLY, F_SIGPUSHONLY | F_P2SH, F_STANDARD}) {
+          // an output whose scriptPubKey is EMPTY (anyone can spend with a true item): the script of the session is a scriptSig all the same
+          for (const char* ss : {"51", "5161", "517675", "00", ""}) {
+              mk(std::string("empty scriptPubKey spent with scriptSig ") + (ss[0] ? ss : "(empty)") + " under " + alpha::flags_str(fl & (F_SIGPUSHONLY | F_CLEANSTACK)), S, [&](Tx& f, Tx& t) { f.vout[1].spk = bytes{}; t.vin[1].prev_hash = txid(f); t.vin[1].script_sig = unhex(ss); });
+              cases.back().flags = fl;
+          }
           mk("bare output OP_1 spent with scriptSig OP_NOP under " + alpha::flags_str(fl & (F_SIGPUSHONLY | F_CLEANSTACK)), S, [&](Tx& f, Tx& t) { f.vout[1].spk = unhex("51"); t.vin[1].prev_hash = txid(f); t.vin[1].script_sig = unhex("61"); });
           cases.back().flags = fl;
           mk("bare output OP_1 spent with scriptSig OP_1 OP_DROP under " + alpha::flags_str(fl & (F_SIGPUSHONLY | F_CLEANSTACK)), S, [&](Tx& f, Tx& t) { f.vout[1].spk = unhex("51"); t.vin[1].prev_hash = txid(f); t.vin[1].script_sig = unhex("5175"); });
